@@ -3,7 +3,7 @@
    come from SlskGen.PrioGen, regenerated from /repo/src/aioslsk/transfer/manager.py on every run. *)
 From Slsk Require Import Base.Tac.
 From Coq Require Import Permutation Sorting.Sorted.
-From SlskGen Require Import PrioGen.
+From SlskGen Require Import PrioGen SlotGen.
 From Slsk Require Import C05.Model C05.Proofs.
 
 (* What one management cycle starts: never more than the free slots, one upload per user, only
@@ -59,6 +59,18 @@ Proof. intros evs n A. exact (slots_inv evs (init n) (init_inv n) A). Qed.
 Theorem C05_first_segment_initializes : FIRST_SEGMENT_INITIALIZES = true.
 Proof. reflexivity. Qed.
 
+(* What the slot guard of the upload loop (repair F03) adds: cycles may run again before the tasks they
+   created have started -- back to back, at any timing -- provided every upload that still owns an
+   unstarted task is still inside the slice of the cycle (true whenever nothing that changes the ranking
+   happened in between); the invariant then holds without A1. *)
+Theorem C05_slots_inv_guarded : forall evs n,
+  a1g (init n) evs = true ->
+  let s' := run (init n) evs in
+  (n_processing s' <= slots (mcfg s') \/
+   forall t, In t (mts s') -> processing t = true -> told t = true) /\
+  NoDup (map tuser (filter processing (mts s'))).
+Proof. intros evs n A. exact (slots_inv_guarded evs (init n) eq_refl (init_inv n) A). Qed.
+
 (* Without A1 the invariant is false of the model (two cycles before the first task ran). *)
 Theorem C05_slots_inv_without_A1_refuted : exists evs,
   let s' := run (init 1) evs in
@@ -90,6 +102,12 @@ Example C05_slots_inv_nonvacuous :
               Cycle; Queue 2; Finish 1 FComplete; Cycle; First 0; Abort 0; Cycle; FirstAll] in
   a1 (init 2) evs = true /\ map st_code (mts (run (init 2) evs)) = [4; 4; 0; 2] /\
   n_processing (run (init 2) evs) = 1.
+Proof. vm_compute. auto. Qed.
+
+Example C05_guarded_nonvacuous :
+  let evs := [Queue 0; Queue 1; Queue 2; Cycle; Cycle; Status 0 Offline false; Cycle; FirstAll; Cycle] in
+  a1g (init 2) evs = true /\ a1 (init 2) evs = false /\
+  map st_code (mts (run (init 2) evs)) = [0; 2; 2].
 Proof. vm_compute. auto. Qed.
 
 Example C05_progress_nonvacuous :
